@@ -105,6 +105,9 @@ func H_C05_accept() {
 	err3 := checkOnce(newT(tb, newBufBitStream(s.rec.data, false), false, nil), p.prop)
 	vassert(err3 != nil && sameError(err3, s.err), "C01: the buffer kept by the shrinker does not reproduce the failure it is reported with")
 	vassert(p.last().fatalAt == site0, "C05: minimization moved to a different failure site")
+	// ... and it is still a falsification: a test case that is merely skipped/invalid at the same
+	// place is not "the same failure"
+	vassert(!s.err.isInvalidData() && p.last().signals > 0, "C01: the shrinker moved to a test case that does not falsify the property (it is only skipped / invalid)")
 }
 
 // varGroupProp draws two standalone groups with the same label whose length depends on their
